@@ -33,6 +33,7 @@ type GhostFunc struct {
 	Body    ast.Expr // nil: uninterpreted
 	BodySrc string
 	Assumed bool
+	Macro   bool // expanded at each use (may read the heap); parameters are untyped
 }
 
 type Axiom struct {
@@ -61,6 +62,7 @@ type Contract struct {
 	Splits   []*Split
 	Asserts  map[string][]Clause // "at <label>" assertions
 	Lemmas   []string            // axioms names to use (empty = all)
+	Mutates  []string            // abstract-valued parameters (usually the receiver) updated in place
 	Assumed  bool                // extern (trusted) contract
 	File     string
 	Line     int
@@ -78,10 +80,11 @@ type Specs struct {
 	GVOrder   []string
 	Axioms    []*Axiom
 	Consts    map[string]string // ghost named constants
+	Abstract  map[string]Sort   // "btree.Map" -> sort of its abstract value
 }
 
 func newSpecs() *Specs {
-	return &Specs{Contracts: map[string]*Contract{}, Ghosts: map[string]*GhostFunc{}, GhostVars: map[string]*GhostVar{}, Consts: map[string]string{}}
+	return &Specs{Contracts: map[string]*Contract{}, Ghosts: map[string]*GhostFunc{}, GhostVars: map[string]*GhostVar{}, Consts: map[string]string{}, Abstract: map[string]Sort{}}
 }
 
 var reLabel = regexp.MustCompile(`^\[([A-Za-z0-9_.:=,|<>+\-]+)\]\s*`)
@@ -287,6 +290,7 @@ func parseSortName(s string) (Sort, error) {
 	return SNone, fmt.Errorf("unknown spec sort %q", s)
 }
 
+var reGhostMacro = regexp.MustCompile(`^ghost\s+macro\s+([A-Za-z_][A-Za-z0-9_]*)\s*\(([^)]*)\)\s*=\s*(.*)$`)
 var reGhostFunc = regexp.MustCompile(`^ghost\s+(func|def)\s+([A-Za-z_][A-Za-z0-9_]*)\s*\(([^)]*)\)\s*([^=]+?)\s*(=\s*(.*))?$`)
 var reFuncHdr = regexp.MustCompile(`^func\s+([A-Za-z_][A-Za-z0-9_.]*)\s*(\(([^)]*)\))?\s*$`)
 
@@ -364,6 +368,22 @@ func (sp *Specs) loadSpecFile(path, pkgPrefix string, assumed bool) error {
 					return fmt.Errorf("%s:%d: ghost const NAME = VALUE", path, l.ln)
 				}
 				sp.Consts[strings.TrimSpace(f[0])] = strings.TrimSpace(f[1])
+				continue
+			}
+			if mm := reGhostMacro.FindStringSubmatch(c); mm != nil {
+				gf := &GhostFunc{Name: mm[1], Assumed: assumed, Macro: true, BodySrc: mm[3]}
+				for _, p := range strings.Split(mm[2], ",") {
+					if p = strings.TrimSpace(p); p != "" {
+						gf.Params = append(gf.Params, p)
+					}
+				}
+				e, err := parseSpecExpr(mm[3])
+				if err != nil {
+					return fmt.Errorf("%s:%d: %v", path, l.ln, err)
+				}
+				gf.Body = e
+				sp.Ghosts[gf.Name] = gf
+				cur = nil
 				continue
 			}
 			m := reGhostFunc.FindStringSubmatch(c)
@@ -536,6 +556,24 @@ func (sp *Specs) loadSpecFile(path, pkgPrefix string, assumed bool) error {
 				return err
 			}
 			cur.Asserts[f[0]] = append(cur.Asserts[f[0]], cl)
+		case "abstract":
+			f := strings.Fields(rest)
+			if len(f) != 2 {
+				return fmt.Errorf("%s:%d: abstract pkg.Type SORT", path, l.ln)
+			}
+			so, err := parseSortName(f[1])
+			if err != nil {
+				return fmt.Errorf("%s:%d: %v", path, l.ln, err)
+			}
+			sp.Abstract[f[0]] = so
+			cur = nil
+		case "mutates":
+			if cur == nil {
+				return fmt.Errorf("%s:%d: clause outside func", path, l.ln)
+			}
+			for _, p := range strings.Split(rest, ",") {
+				cur.Mutates = append(cur.Mutates, strings.TrimSpace(p))
+			}
 		case "uses":
 			if cur == nil {
 				return fmt.Errorf("%s:%d: clause outside func", path, l.ln)
